@@ -170,14 +170,13 @@ CHECKS = {
               'pairs passing the test and removes nothing; the test is: not a block non-bond, not H-H, no hydrogen to '
               'another residue, both radii known, d <= fudge*(r1+r2)/2 (exact, on squared distances); every pre-existing '
               'bond is kept; name-based bonds are exactly the block bonds among present names; the molecule of an atom is '
-              'a function of its residue (mol_idx is part of the residue identity) and residues of one molecule are '
-              'connected (closure soundness); the VDW_RADII table regenerated from the source equals Bondi (finite '
+              'a function of its residue (mol_idx is part of the residue identity), residues of one molecule are '
+              'connected and connected residues share their molecule (closure sound and complete: molecules = components); the VDW_RADII table regenerated from the source equals Bondi (finite '
               'theorem). Tie: real MakeBonds.run_system on generated systems; bonds, molecules and warnings compared with '
               'the model, and the statement evaluated with the LITERAL Bondi table on the real output in Coq.'),
         design_ref='DESIGN.md section 5, C10',
         note=('Trusted: Coq kernel + vm_compute; scipy KDTree distances vs exact squared distances (pairs within 1e-9 of a '
-              'threshold not generated, except exactly representable ones); completeness of the breadth-first closure is '
-              'validated, not proved; translator for VDW_RADII.'),
+              'threshold not generated, except exactly representable ones); translator for VDW_RADII.'),
         technique='Coq proof (fold invariant of the distance pass, closure soundness, finite table theorem) + table regenerated from source + in-Coq correspondence with an independent radius table'),
     'C13': dict(
         category='proof',
@@ -217,7 +216,7 @@ CHECKS = {
         technique='Coq proof (case analysis + lia for the order table, enumeration soundness/completeness, fold invariants for interaction tables) + in-Coq correspondence'),
     'C01': dict(
         category='proof',
-        text=('PARTIAL (block mappings; modification mappings are not modelled). Coq theorems about a model of '
+        text=('Coq theorems about a model of '
               'Mapping.map + MappingGraphMatcher and of do_mapping / apply_block_mapping / merge_molecule: a mapping is '
               'placed exactly at the injective assignments where names, residue names, bonds among matched atoms (present '
               'and absent) and same-residue parity of bonds agree; processing order is ascending lowest atom key and a '
@@ -226,12 +225,12 @@ CHECKS = {
               'particle); each particle records exactly the atoms and weights its own placement assigns to it, whatever '
               'comes before or after (fresh-key invariant); particles of different placements are connected exactly through '
               'bonded constituent atoms; the unmapped-atom warning is raised iff a non-hydrogen atom belongs to no placement; '
-              'the overlap warning iff two placements share an atom. Tie: real Mapping.map (set of placements) and real '
+              'the overlap warning iff two placements share an atom. Modification mappings are modelled (groups of labelled atoms, exact cover of their modification names, placements under ptm_resname_match, apply_mod_mapping, the merge loop): the merge loop is an interleaving that keeps both orders and applies a modification exactly after the blocks that start at or below its key. Tie: real Mapping.map (set of placements) and real '
               'do_mapping with log capture on generated molecules and mapping sets; output compared with the model, and the '
               'statement evaluated DIRECTLY (no incremental tables) in Coq on the real output.'),
         design_ref='DESIGN.md section 5, C01',
         note=('Trusted: Coq kernel + vm_compute; networkx VF2 replaced by exhaustive enumeration (agreement checked per case); '
-              'modification mappings, references, attribute_must, the disconnected / garbage-attribute warnings are outside the model; '
+              'references, attribute_must, the disconnected / garbage-attribute and multiple-modification warnings are outside the model; for modification mappings only the merge order is a theorem, their effect is tied by correspondence and the statement checker; '
               'multi-residue blocks whose last particle is not in the last residue are numbered as merge_molecule does (offset '
               'by the last particle), consecutive numbering is proved for one-residue blocks only.'),
         technique='Coq proof (enumeration soundness/completeness, fold invariants with fresh-key argument, insertion-sort order) + in-Coq correspondence + direct statement checker'),
@@ -283,15 +282,14 @@ CHECKS = {
               '(soundness and completeness against an inductive definition of covers, termination by the shrinking set); '
               'in a cover every atom to be covered lies in a chosen placement and every unexplained atom in exactly one; '
               'the placements offered for a modification are exactly its induced sub-graph isomorphisms with anchors matched '
-              'by name and added atoms by element (C06 reference enumeration). Tie: real fix_ptm on generated molecules and '
+              'by name and added atoms by element (C06 reference enumeration); the flood fill that forms the groups returns exactly the unexplained atoms chained to its start and exactly the recognised atoms bonded to them as anchors (sound, and complete with the fuel of the model by a potential argument). Tie: real fix_ptm on generated molecules and '
               'modification sets (sub-patterns of one another, anchor-only, residue-spanning, replace / remove, nameless '
               'elements) with find_ptm_atoms / identify_ptms observed; grouping and identify outcome compared with the model; '
               'the statement (induced placement, covered exactly once, canonical names, residue labels, removal with '
               'warning, nothing silently kept) evaluated in Coq on the implementation\'s own placements and final molecule.'),
         design_ref='DESIGN.md section 5, C14',
         note=('Trusted: Coq kernel + vm_compute; networkx GraphMatcher replaced by C06\'s enumeration in the model; harness wrappers '
-              'observing find_ptm_atoms / identify_ptms; the branch for atoms already labelled by RepairGraph is not modelled; the '
-              'flood-fill grouping is validated, not proved.'),
+              'observing find_ptm_atoms / identify_ptms; the branch for atoms already labelled by RepairGraph is not modelled.'),
         technique='Coq proof (soundness and completeness of a backtracking exact cover against an inductive specification) + C06 verified oracle + in-Coq correspondence'),
     'C11': dict(
         category='other',
